@@ -56,10 +56,23 @@ class _Sock:
         return len(chunk)
 
 
-def _rebind_all(CL):
-    """the stand-ins just stored in CL.socket / CL.select / CL.time, under any import style of client.py"""
+_REAL = ("socket", "select", "time")
+
+
+def _save(CL):
+    from .rebind import snapshot
+    return snapshot(CL, _REAL)
+
+
+def _install(CL, shims):
+    """socket / select / time stand-ins of `_shims`, under any import style of client.py"""
     from .rebind import rebind
-    rebind(CL, {"socket": CL.socket, "select": CL.select, "time": CL.time})
+    rebind(CL, dict(zip(_REAL, shims)))
+
+
+def _restore(CL, saved):
+    from .rebind import reinstate
+    reinstate(CL, saved)
 
 
 def _shims(world):
@@ -133,15 +146,14 @@ def check_entry_points() -> Dict[str, Any]:
     import pyrtma.core_defs as cd
     failures: List[Dict[str, Any]] = []
     n = 0
-    saved = (CL.socket, CL.select, CL.time)
+    saved = _save(CL)
     try:
         for entry, logger, daemon, allow, name, mid, timecode in itertools.product(
                 ("connect", "connect_kw", "client_context"), (False, True), (False, True), (False, True), ("", "nm"), (0, 12), (False, True)):
             if entry == "client_context" and daemon:
                 continue        # client_context has no daemon option
             world = {"sent": b"", "inbuf": _ack_bytes(timecode, mid or 117) * 4}
-            CL.socket, CL.select, CL.time = _shims(world)
-            _rebind_all(CL)
+            _install(CL, _shims(world))
             n += 1
             try:
                 if entry == "client_context":
@@ -186,8 +198,7 @@ def check_entry_points() -> Dict[str, Any]:
         for how, mid, allow, logger, timecode in itertools.product(
                 ("disconnect", "eof_on_read", "reset_on_send", "still_connected"), (0, 12), (False, True), (False, True), (False, True)):
             world = {"sent": b"", "inbuf": _ack_bytes(timecode, mid or 117) * 2}
-            CL.socket, CL.select, CL.time = _shims(world)
-            _rebind_all(CL)
+            _install(CL, _shims(world))
             n += 1
             opts = dict(reconnect_after=how, logger=logger, allow_multiple=allow, name="rc", id=mid, timecode=timecode)
             try:
@@ -237,8 +248,7 @@ def check_entry_points() -> Dict[str, Any]:
             for b in bad:
                 failures.append({"entry": "reconnect", "options": opts, "frames": frames[:3], "what": b})
     finally:
-        CL.socket, CL.select, CL.time = saved
-        _rebind_all(CL)
+        _restore(CL, saved)
     return {"cases": n, "failures": failures}
 
 
@@ -253,15 +263,14 @@ def check_reconnect_state() -> Dict[str, Any]:
     from pyrtma.header import get_header_cls
     failures: List[Dict[str, Any]] = []
     n = 0
-    saved = (CL.socket, CL.select, CL.time)
+    saved = _save(CL)
     T1 = cd.MT_EXIT if hasattr(cd, "MT_EXIT") else cd.MT_CLIENT_INFO
     try:
         for how, sub_all, timecode in itertools.product(("disconnect", "eof_on_read", "reset_on_send", "still_connected"),
                                                         (False, True), (False, True)):
             n += 1
             world = {"sent": b"", "inbuf": _ack_bytes(timecode, 12) * 3}     # handshake (2) + subscribe (1)
-            CL.socket, CL.select, CL.time = _shims(world)
-            _rebind_all(CL)
+            _install(CL, _shims(world))
             tag = dict(first_session_ended_by=how, subscribed_to_all=sub_all, timecode=timecode)
             try:
                 c = CL.Client(module_id=12, timecode=timecode, name="rc")
@@ -318,8 +327,7 @@ def check_reconnect_state() -> Dict[str, Any]:
                 failures.append(dict(tag, property="C02", what=f"raised {type(e).__name__}: {e}"))
                 failures.append(dict(tag, property="C08", what=f"raised {type(e).__name__}: {e}"))
     finally:
-        CL.socket, CL.select, CL.time = saved
-        _rebind_all(CL)
+        _restore(CL, saved)
     return {"cases": n, "failures": failures}
 
 
@@ -372,15 +380,14 @@ def entry_model_cases() -> List[Dict[str, Any]]:
     import pyrtma.client as CL
     import pyrtma.core_defs as cd
     out: List[Dict[str, Any]] = []
-    saved = (CL.socket, CL.select, CL.time)
+    saved = _save(CL)
     n = 0
     try:
         for logger, daemon, allow, name, mid, tc in itertools.product((False, True), (False, True), (False, True),
                                                                       ("", "nm", "a name with spaces"), (0, 12, 99), (False, True)):
             for label, kind, calls in entry_shapes(logger, daemon, allow, name, mid, tc):
                 world = {"sent": b"", "inbuf": _ack_bytes(tc, mid or 117) * 4}
-                CL.socket, CL.select, CL.time = _shims(world)
-                _rebind_all(CL)
+                _install(CL, _shims(world))
                 cid = f"e{n}"
                 n += 1
                 lines = [f"ECASE {cid} {kind}"] + [_call_line(w, p, k) for w, (p, k) in calls.items()]
@@ -422,6 +429,5 @@ def entry_model_cases() -> List[Dict[str, Any]]:
                             "options": dict(logger=logger, daemon=daemon, allow_multiple=allow, name=name, id=mid),
                             "calls": {w: [list(p), dict(k)] for w, (p, k) in calls.items()}, "protocol": lines})
     finally:
-        CL.socket, CL.select, CL.time = saved
-        _rebind_all(CL)
+        _restore(CL, saved)
     return out
